@@ -20,7 +20,8 @@ from .. import peer as P
 from ..profile import Profile
 from . import c10
 
-KINDS = ['status', 'negotiate', 'login_comp', 'login_enc', 'play']
+KINDS = ['status', 'negotiate', 'negotiate_out', 'login_comp', 'login_enc', 'play']
+FALLBACK = {'negotiate': 340, 'negotiate_out': 498}     # negotiate_out: the default version is supported but not among the allowed ones
 
 
 def conversation(kind, cut, seed):
@@ -46,6 +47,8 @@ def conversation(kind, cut, seed):
         steps.append(('call', fn))
 
     def factory(idx, sess):
+        if idx >= 6:
+            return None         # (a client that keeps coming back is refused in the end)
         rec = {'frames': [], 'total': None, 'sock': sess.index}
         conns.append(rec)
         sc = TracingScript(run, None, [])
@@ -67,7 +70,7 @@ def conversation(kind, cut, seed):
             add_emit(sc, rec, steps, lambda s: s.prof.status_response(P.status_json(protocol=v_hi, name='ref')))
             steps.append(('expect', 3))
             add_emit(sc, rec, steps, lambda s: s.prof.status_pong(s.parsed[2].get('time', 0)))
-        elif kind == 'negotiate' and idx == 0:
+        elif kind in FALLBACK and idx == 0:
             sc.prof = Profile(v_hi)
             steps.append(('expect', 2))
             add_emit(sc, rec, steps, lambda s: s.prof.status_response(P.status_json(protocol=v_lo, name='ref')))
@@ -82,6 +85,12 @@ def conversation(kind, cut, seed):
                     return sc.prof.parse(state, fr)
             sc.prof = Lazy()
             steps.append(('expect', 2))
+            if kind in FALLBACK:
+                def status_again(s):
+                    if s.parsed and s.parsed[0].get('next') == 1:       # another status query instead of the login: hang up
+                        info['status_again'] = info.get('status_again', 0) + 1
+                        s.steps[s.pc + 1:] = [('close',)]
+                steps.append(('call', status_again))
             if kind == 'login_enc':
                 tok = b'\x0a\x0b\x0c\x0d'
 
@@ -120,8 +129,8 @@ def conversation(kind, cut, seed):
     def scenario(run):
         if kind == 'status':
             c = run.make_connection(allowed_versions={v_hi})
-        elif kind == 'negotiate':
-            c = run.make_connection(allowed_versions={v_lo, v_hi}, initial_version=v_lo)
+        elif kind in FALLBACK:
+            c = run.make_connection(allowed_versions={v_lo, v_hi}, initial_version=FALLBACK[kind])
         else:
             c = run.make_connection(allowed_versions={v_hi})
 
@@ -210,13 +219,16 @@ def run(chk):
                                   {'kind': kind, 'conn': ci, 'offset': off})
                     continue
                 complete = [e for e in conns0[ci]['frames'] if e <= off]
-                if kind == 'negotiate' and ci == 0 and off < n:
+                if kind in FALLBACK and ci == 0 and off < n:
                     # unanswered status query: documented fallback to the default version, no error
                     ok = len(conns) == 2 and not run_.errors and run_.exits == 1 and \
-                        conns[1]['script'].parsed and conns[1]['script'].parsed[0].get('protocol') == 340
+                        conns[1]['script'].parsed and conns[1]['script'].parsed[0].get('protocol') == FALLBACK[kind] and \
+                        conns[1]['script'].parsed[0].get('next') == 2
                     if not ok:
-                        chk.violation('eof:negotiate:fallback', '%s: expected the fallback connection with the default version; got %d '
-                                      'connections, errors %r' % (where, len(conns), run_.errors[:2]), {'offset': off})
+                        chk.violation('eof:%s:fallback' % kind, '%s: expected one fallback login with the default version %d; got %d '
+                                      'connections (first frames %r), errors %r'
+                                      % (where, FALLBACK[kind], len(conns), [r_['script'].parsed[:1] and (r_['script'].parsed[0].get('protocol'),
+                                         r_['script'].parsed[0].get('next')) for r_ in conns][:6], run_.errors[:2]), {'offset': off})
                 elif off < n:
                     if not run_.errors:
                         chk.violation('eof:%s:no-error' % kind, '%s: the client ended without reporting an error' % where,
